@@ -176,7 +176,53 @@ def line_schedules(max_k):
         if len(made) != 1 or len(insts) != 1:
             return {"fn": "_getInstance/line-schedule", "violated": "single: %d creations, %d distinct instances for two concurrent first calls" % (len(made), len(insts))}
         return None
-    return sched.explore([S.__file__], make, oracle, max_k=max_k)
+    runs, bad = sched.explore([S.__file__], make, oracle, max_k=max_k)
+    if bad:
+        return runs, bad
+
+    # a first call interleaved with the daemon's periodic housekeeping: whatever the interleaving, the instance created by the first call serves the next call too
+    def make2():
+        from Pyro5 import config
+        saved = config.SERVERTYPE
+        config.SERVERTYPE = "multiplex"
+        try:
+            d = S.Daemon(host="127.0.0.1", port=0)
+        finally:
+            config.SERVERTYPE = saved
+        made = []
+
+        class Single:
+            pass
+
+        def creator(c):
+            made.append(1)
+            return c()
+        Single._pyroInstancing = ("single", creator)
+        d.register(Single, "single-class")
+        c1 = su.SocketConnection(FakeSock())
+        return [lambda: d._getInstance(Single, c1), lambda: d._housekeeping()], (d, made, Single, c1)
+
+    def oracle2(ctx, workers):
+        d, made, Single, c1 = ctx
+        errs = [repr(w.error) for w in workers if w.error is not None]
+        again = None
+        if not errs:
+            try:
+                again = d._getInstance(Single, su.SocketConnection(FakeSock()))
+            except Exception as x:      # noqa
+                errs.append(repr(x))
+        try:
+            d.close()
+        except Exception:      # noqa
+            pass
+        if errs:
+            return {"fn": "_getInstance/housekeeping line-schedule", "violated": "exception: %s" % errs}
+        if len(made) != 1 or again is not workers[0].result:
+            return {"fn": "_getInstance/housekeeping line-schedule",
+                    "violated": "single: %d creations; the call after a housekeeping pass was served by %s instance" % (len(made), "the same" if again is workers[0].result else "ANOTHER")}
+        return None
+    n2, bad = sched.explore([S.__file__], make2, oracle2, max_k=max_k)
+    return runs + n2, bad
 
 
 def main(mode):
